@@ -68,7 +68,7 @@ def obligations(tier):
     obs += [Ob("C09.step4", F, "step4", 500, part=p, what=w + " (4-atom blocks)") for p in p4]
     for k in (0, 1):
         obs.append(Ob("C09.loops", F, "loops", 400, part=str(k), what="while (0) / for (1) with 0, 1, 2 iterations: no read that is unassigned on some execution goes unreported"))
-    cparts = ["0,0", "1,0"] if tier == "quick" else ["%d,%d" % (a, b) for a in range(4) for b in range(7)]
+    cparts = ["0,0,1", "0,4,6", "1,0,2"] if tier == "quick" else ["%d,%d,%d" % (a, b, d) for a in range(4) for b in range(7) for d in range(7)]
     for cp in cparts:
         obs.append(Ob("C09.calls", F, "calls", 600, part=cp, what="def f(): A / if c: B; f() else: C; f() / D -- no read of the module-level x (inside f at either call, or outside) that is unassigned on some execution goes unreported"))
     obs.append(Ob("C09.whole_program", F, "whole_program", 120, what="tifa_analysis on 8 whole programs: initialization issues and unused-variable report"))
